@@ -349,6 +349,8 @@ type SPPool struct {
 	sp  *saml2.SAMLServiceProvider
 	clk *SpyClock
 	st  *SpyStore
+	// Poison: further certificates the original is left trusting when a copy is handed out (the world's attackers)
+	Poison []*sim.Cert
 }
 
 // Get returns the pooled SP configured exactly as NewSP(now, store...) would configure a fresh one.
@@ -397,7 +399,11 @@ func (p *SPPool) SPSource(k int, now time.Time, store ...*sim.Cert) (*saml2.SAML
 // inside the original must not follow the copy.
 func (p *SPPool) Copy(now time.Time, store ...*sim.Cert) (*saml2.SAMLServiceProvider, *SpyClock, *SpyStore) {
 	p.Get(now, store...)
-	p.st.Roots = []*x509.Certificate{sim.Wide(sim.K("atk1"), now).X509}
+	// the original is left trusting the attackers (every certificate they present anywhere: self-signed and CA-issued)
+	p.st.Roots = []*x509.Certificate{sim.Wide(sim.K("atk1"), now).X509, sim.Wide(sim.K("atk2"), now).X509}
+	for _, c := range p.Poison {
+		p.st.Roots = append(p.st.Roots, c.X509)
+	}
 	cp := *p.sp //nolint:govet // quiescent: no call is in flight, the embedded lock is free
 	st := &SpyStore{}
 	for _, c := range store {
